@@ -703,6 +703,42 @@ int main(int argc, char** argv) {
   derivOrderSpace(R, th);
   builtinSpaces(R, th);
 
+  // the three algorithms built on the SAME alphabet / transition / emission objects (components shared between likelihood objects): one
+  // parameter is given a new value through each likelihood object in turn, in every order; after each step the objects that have received
+  // the value answer like a fresh object at the current parameter values, whatever their components had already been told by another owner
+  {
+    static const int ORD[6][3] = {{0, 1, 2}, {0, 2, 1}, {1, 0, 2}, {1, 2, 0}, {2, 0, 1}, {2, 1, 0}};
+    R.space("shared-components:models{fixed,full,autocorr}:parameter{theta,phi,transition-a,transition-b}:update-order6", 3 * 4 * 6, [=](uint64_t idx, vf::Case& c) {
+      std::vector<int> d = vf::digits(idx, {6, 4, 3}); int ord = d[0], par = d[1]; E1Cfg cfg; cfg.mod = (Mod)d[2]; cfg.alg = RESC;
+      if (cfg.mod == HFIX && par >= 2) { c.tag("shared: fixed transition model has no transition parameter (skipped)"); return; }
+      auto mk = [&](double thv, double phv, double tav, double tbv, Built& b) {
+        b.a = std::make_shared<HAlphabet>(2);
+        if (cfg.mod == HFIX) b.t = std::make_shared<HTrans>(b.a, E1Cfg::fixedP(), stationary(E1Cfg::fixedP()));
+        else if (cfg.mod == FULL) b.t = mkFull(b.a, Vd{tav, tbv}); else b.t = mkAuto(b.a, Vd{tav, tbv});
+        b.e = std::make_shared<HEmis>(b.a, E1Cfg::base(), thv, phv); };
+      Built sh; mk(E1Cfg::thetaV(0), 1.0, cfg.taV(0), cfg.tbV(0), sh);
+      std::unique_ptr<HmmLikelihood> L[3]; for (int a = 0; a < 3; ++a) L[a] = mkLik((Alg)a, sh, 2, c);
+      std::string name = par == 0 ? "theta" : par == 1 ? "phi" : par == 2 ? cfg.taN() : cfg.tbN();
+      double nv = par == 0 ? E1Cfg::thetaV(1) : par == 1 ? 0.5 : par == 2 ? cfg.taV(1) : cfg.tbV(1);
+      // reference: fresh objects (own components) at the new values
+      Built fr; mk(par == 0 ? nv : E1Cfg::thetaV(0), par == 1 ? nv : 1.0, par == 2 ? nv : cfg.taV(0), par == 3 ? nv : cfg.tbV(0), fr);
+      double want[3]; for (int a = 0; a < 3; ++a) { vf::Out o2; vf::Case c2 = c; c2.out = &o2; c2.muted = true; auto f = mkLik((Alg)a, fr, 2, c2); want[a] = f->getLogLikelihood(); }
+      c.nontrivial();
+      for (int k = 0; k < 3; ++k) {
+        int a = ORD[ord][k];
+        c.site((std::string(ALGC[a]) + "::setParameterValue(shared components)").c_str());
+        L[a]->setParameterValue(name, nv);
+        for (int j = 0; j <= k; ++j) { int b = ORD[ord][j];
+          c.site((std::string(ALGC[b]) + "::getLogLikelihood").c_str());
+          double got = L[b]->getLogLikelihood();
+          if (!(std::fabs(got - want[b]) <= 1e-12 * std::max(1.0, std::fabs(want[b]))))
+            c.fail(std::string("shared|") + ALGN[b] + "|loglik-differs-from-fresh-object-after-the-value-reached-it", std::string(ALGN[b]) + " with " + MODN[cfg.mod] + " transition model on components shared with the two other algorithms: " + name + " := " + num(nv) + " given to the objects in the order " + ALGN[ORD[ord][0]] + ", " + ALGN[ORD[ord][1]] + ", " + ALGN[ORD[ord][2]] + "; after step " + str(k + 1) + " it answers " + num(got) + ", a fresh object " + num(want[b]));
+        }
+      }
+      c.tag("shared-components:checked");
+    }, 10.0);
+  }
+
   int depth = th ? 5 : 4;
   for (int a = 0; a < 3; ++a) for (int m = 0; m < 3; ++m) {
     Alg alg = (Alg)a; Mod mod = (Mod)m;
